@@ -135,7 +135,7 @@ def stk(o):
     return o.to_stacked_vector() if hasattr(o, "to_stacked_vector") else o
 
 
-def ob_dykstra(typ, sys, m, order, flag, level, K, hist_on, fixpoint=False):
+def ob_dykstra(typ, sys, m, order, flag, level, K, hist_on, fixpoint=False, objflag=None):
     d = DIMS[sys]
     ns = c03.n_stacked(typ, d, m)
     nv = c03.n_var(typ, d, m, flag)
@@ -159,7 +159,8 @@ def ob_dykstra(typ, sys, m, order, flag, level, K, hist_on, fixpoint=False):
                 start = x0
             else:
                 v = vec_of(I, "x", nv)
-                tmpl = c03.make_obj(typ, c, (SymNd([0.0] * ns) if nd.has_sym(v) else np.zeros(ns)), m, flag)
+                # objflag: the object the routine is called on may carry ANOTHER parametrisation flag than the call's argument; the argument decides
+                tmpl = c03.make_obj(typ, c, (SymNd([0.0] * ns) if nd.has_sym(v) else np.zeros(ns)), m, flag if objflag is None else objflag)
                 tmpl._mode_proj_order = order
                 tmpl._eps_proj_physical = eps
                 with contextlib.redirect_stdout(io.StringIO()):
@@ -314,6 +315,9 @@ def obligations(tier):
                         out += specs("C05.objvar", [{"typ": typ, "sys": s, "m": m, "order": order, "flag": flag, "K": K}], ob_objvar, K)
                     out += specs("C05.dykstra", [{"typ": typ, "sys": s, "m": m, "order": order, "flag": False, "level": "object", "K": 2, "hist_on": True}], ob_dykstra, 1)
                     out += specs("C05.dykstra", [{"typ": typ, "sys": s, "m": m, "order": order, "flag": False, "level": "var", "K": 1, "hist_on": True}], ob_dykstra, 1)
+                    if order == "eq_ineq":
+                        for flag in (False, True):
+                            out += specs("C05.dykstra", [{"typ": typ, "sys": s, "m": m, "order": order, "flag": flag, "level": "var", "K": 2, "hist_on": True, "objflag": not flag}], ob_dykstra, 1)
     return out
 
 
